@@ -42,6 +42,16 @@ def _len_arg(e):
     return None
 
 
+def _len_key(e):
+    """union-find key of a length expression: len(X) or a local name holding a length"""
+    la = _len_arg(e)
+    if la is not None:
+        return "seq:" + U(la)
+    if isinstance(e, ast.Name):
+        return "len:" + e.id
+    return None
+
+
 def analyse(fn):
     """[(node, sequence text, modulus text, ok, why)] for every modular index in fn"""
     uf = UF()
@@ -93,9 +103,15 @@ def analyse(fn):
         if isinstance(n, ast.If) and n.body and isinstance(n.body[-1], (ast.Return, ast.Raise)) and not n.orelse:
             t = n.test
             if isinstance(t, ast.Compare) and len(t.ops) == 1 and isinstance(t.ops[0], ast.NotEq):
-                a, b = _len_arg(t.left), _len_arg(t.comparators[0])
+                a, b = _len_key(t.left), _len_key(t.comparators[0])
                 if a is not None and b is not None:
-                    uf.union("seq:" + U(a), "seq:" + U(b))
+                    uf.union(a, b)
+        if isinstance(n, ast.Assert):
+            for t in (n.test.values if isinstance(n.test, ast.BoolOp) and isinstance(n.test.op, ast.And) else [n.test]):
+                if isinstance(t, ast.Compare) and len(t.ops) == 1 and isinstance(t.ops[0], ast.Eq):
+                    a, b = _len_key(t.left), _len_key(t.comparators[0])
+                    if a is not None and b is not None:
+                        uf.union(a, b)
     # `n` names that are lengths: link lenname -> len
     for k in list(uf.p):
         if k.startswith("lenname:"):
